@@ -56,7 +56,18 @@ IDIOMS = {
     "if-boolop-split": "`if a or b: S else: T` is `if a: S else: (if b: S else: T)` and `if a and b: S else: T` is `if a: (if b: S else: T) else: T` (exact, by short-circuit evaluation); applied only when an operand is `X is None` / `X is not None` on an Optional name or self attribute chain, so that the later operands and the branches read the payload (narrowing-by-match)",
     "noop-call-by-spec": "an expression statement calling a function the spec lists under noop_calls (logging) is skipped and its arguments are NOT evaluated: assumed effect free and non-raising",
     "fragment-as-function": "spec 'fragment': a prefix of the statements of one block of a function (addressed by a path of loop statements, optionally starting behind the unique statement of a given type; ending before the first statement that contains break/continue/return, or after a given number of statements) is translated as a function of the enclosing locals listed as parameters, returning the listed output locals; every other local it assigns must be declared a temp and is checked not to be read outside the fragment. That the block runs where the model says is NOT covered by the link",
+    "isinstance-narrowing-by-match": "`if isinstance(x, C): A else: B` on a local name x whose (type, C) the spec lists under isinstance_narrow is `match <view x> with Some p => A | None => B end`: the view (spec, data representation) answers Some payload exactly when x is an instance of C, and A reads x as that payload (attributes through the attribute table of the payload type) until x is reassigned",
+    "local-object-setattr": "`x.a = e` on a local object x that the function entry lists under local_objects (created in this function by a spec-mapped constructor call, never aliased) is the rebinding x := <setattrs[(type of x, a)]> x e; an attribute that the spec does not list is rejected",
+    "mutating-call-by-spec": "an expression statement `f(.., x, ..)` with f under the spec's mutating_calls is the rebinding of the local name x (the argument the spec names as mutated) to the template's value; the other arguments are read only. Aliasing of x is not modelled",
+    "str-dict-literal-by-spec": "a dict literal whose keys are pairwise different string constants is the constructor the spec names under str_dict_literal (e.g. the model's Python-dict value with the members in source order); the values are evaluated left to right",
     "frozen-setattr": "`object.__setattr__(self, \"a\", e)` in the constructor (__post_init__) of a frozen dataclass is `self.a = e` on a state field (the frozen class only blocks the plain assignment syntax)",
+    "while-as-fuel": "`while c: body` is the fuel-bounded recursion py_while fuel (fun st => c) (fun st => body) st over the tuple st of the locals the body assigns (and the stream): the test is evaluated first; if it holds and the fuel is used up the result is Err \"OutOfFuel\" (NOT a Python exception: non-termination within the fuel is outside the link), else one unit of fuel per iteration. The fuel is an explicit extra parameter (nat) the spec names (`while_fuel`); it is handed unchanged to translated callees that need one. `break`/`continue`/`else` in a while are rejected",
+    "rng-as-decision-stream": "spec `stream`: every random.Random generator of the run draws from ONE explicit decision stream (the decisions of all generators in global program order, as the harness logs them), threaded through the function as state: params -> stream -> result (value * stream). A generator object carries no state of its own (unit); constructing one and each of its method calls are the spec-named draw functions (entries with stateful=True), consumed in Python's evaluation order. Stateful calls inside lambdas, conditional expressions, and/or operands and filters are rejected; a comprehension whose element draws is py_mapM_st (items in order)",
+    "int-to-decimal-string": "an f-string whose pieces are str values and ints is the concatenation of its pieces; an int piece `{i}` / `{i:06d}` is the decimal rendering that the SPEC names for that format spec (spec 'fstring_int': {format spec: template}; C04 names Evqe/Names.v's `dec` and `pad6`, the model's own renderings, whose correctness lemmas are in Translate/C04Aux.v); conversions (!r), computed or unlisted format specs and pieces of any other type are rejected",
+    "mutable-argument-as-result": "an object that a callee mutates in place (spec 'mutating_calls': {method name: 'self' for the receiver | the keyword parameter}; function entry 'returns_param') is passed by value and handed back: the callee is the function returning the object's final value, and the call statement `x.m(...)` / `o.m(p=x)` rebinds the caller's local x to it. Aliasing of the object is not modelled",
+    "lambda-as-def": "`f = lambda a, b: e` (one statement of the enclosing function's body, f assigned nowhere else in that block, plain positional parameters) is `def f(a, b): return e`; listed in the spec as 'outer.f' it is translated as its own function: that it is CALLED where the model says is not covered by the link, and names it closes over must be construction-time parameters / state fields of the spec",
+    "optional-number-ordering": "`<`, `<=`, `>`, `>=` between a number and ONE operand of type Optional[int] / Optional[float]: the Optional operand is unwrapped, None raises TypeError (as CPython: '<=' not supported between instances of 'int' and 'NoneType'); not offered inside a comparison chain",
+    "with-lock-as-block": "`with self.<lock>: body` on a lock the spec lists under lock_attrs (no `as`, top-level statement, no return/break/continue inside) is `body`: the sequential meaning; mutual exclusion / blocking / re-entrancy are NOT modelled (removing the `with` does not change the generated definition)",
 }
 
 KEYWORDS = set("at as end in fun let match with if then else for forall exists return using where Set Prop Type fix cofix struct do "
@@ -147,6 +158,11 @@ class FunctionTranslator:
         self.fresh_n = 0
         self.idioms: list[str] = []
         self.state = fspec.get("state")
+        # rng-as-decision-stream: spec `stream=dict(var, ty)` threads a decision stream like a field-less state record
+        self.stream = fspec.get("stream")
+        if self.stream and not self.state:
+            self.state = dict(var=self.stream["var"], ty=self.stream["ty"], ctor="", fields=[])
+        self.fuel = fspec.get("while_fuel")  # while-as-fuel: Gallina name of the explicit fuel parameter
         self.stvar = self.state["var"] if self.state else None
         self.kind = fspec.get("kind", "method")
         self.used_names: set[str] = set()
@@ -255,6 +271,8 @@ class FunctionTranslator:
         v, binds = self.scoped(go)
         if not binds:
             return v.code, v.ty, False
+        if getattr(self, "stream", None) and any(b.startswith(f"let {self.stvar} := snd ") for b in binds):
+            self.bad(node, "stream-consuming (stateful) call inside a conditionally evaluated or repeated sub-expression (rng-as-decision-stream)")
         if not self.monadic and any(b.startswith("do ") for b in binds):
             raise NeedMonad()
         if any(b.startswith("do ") for b in binds):
@@ -301,10 +319,34 @@ class FunctionTranslator:
         k = ekey(node)
         if k in env.narrow:
             return env.narrow[k]
+        if isinstance(node.value, ast.Name) and node.value.id not in env.vars and f"{node.value.id}.{node.attr}" in self.spec.get("consts", {}):
+            c = self.spec["consts"][f"{node.value.id}.{node.attr}"]  # additive: dotted spec constant (enum member `Enum.MEMBER`)
+            return Val(c[0], c[1])
         if self.is_self(node.value):
             return self.self_attr(node, env)
+        chain = self.chain_state_field(node)
+        if chain is not None:  # additive: self.a.b listed by the spec as ONE state field named "a.b"
+            self.idiom("state-record")
+            return Val(f"({chain[1]} {self.stvar})", chain[2])
         recv = self.expr(node.value, env)
         return self.attr_of(recv, node.attr, node, env)
+
+    def chain_state_field(self, node):
+        """self.a.b(.c) -> the state field (attr, projection, Ty) the spec declares under the dotted name "a.b(.c)", else None
+        (the mutable attributes of an object reachable from self, held in the state record; aliasing is not modelled)"""
+        if not self.state or self.kind == "init":
+            return None
+        parts, x = [], node
+        while isinstance(x, ast.Attribute):
+            parts.append(x.attr)
+            x = x.value
+        if len(parts) < 2 or not self.is_self(x):
+            return None
+        name = ".".join(parts[::-1])
+        for fld in self.state["fields"]:
+            if fld[0] == name:
+                return fld
+        return None
 
     def attr_of(self, recv: Val, attr: str, node, env) -> Val:
         tname = recv.ty.name if recv.ty.kind == "nom" else repr(recv.ty)
@@ -370,6 +412,10 @@ class FunctionTranslator:
                 if not self.state or self.state["ty"] != ty:
                     self.bad(node, f"callee {f.py} is stateful on a different state")
                 pieces.append(self.stvar)
+            elif origin == "fuel":
+                if not getattr(self, "fuel", None):
+                    self.bad(node, f"callee {f.py} needs loop fuel: the spec of this function must name its fuel parameter (while_fuel)")
+                pieces.append(self.fuel)
             else:
                 if origin not in actual:
                     self.bad(node, f"argument {origin!r} of {f.py} missing (defaults are not translated)")
@@ -413,6 +459,17 @@ class FunctionTranslator:
 
     def e_BinOp(self, node, env):
         op = node.op
+        if isinstance(op, ast.Mult) and isinstance(node.left, ast.Tuple) and len(node.left.elts) == 1 and not isinstance(node.left.elts[0], ast.Starred):
+            # additive: (x,) * n is the tuple of n copies of x (empty for n <= 0) — literal reading, `repeat`
+            x = self.expr(node.left.elts[0], env)
+            n = self.expr(node.right, env)
+            if n.ty != Z:
+                self.bad(node, "(x,) * n with a non-int n")
+            want = getattr(self, "hint", None)
+            if want is not None and want.kind == "list":
+                x = self.coerce(x, want.args[0], node)
+            self.idiom("tuple-as-list")
+            return Val(f"(repeat {paren(x.code)} (Z.to_nat {paren(n.code)}))", List(x.ty))
         a = self.expr(node.left, env)
         b = self.expr(node.right, env)
         custom = self.spec.get("binops", {}).get((type(op).__name__, repr(a.ty), repr(b.ty)))
@@ -449,6 +506,34 @@ class FunctionTranslator:
         self.bad(node, f"operator {type(op).__name__} on {t}")
 
     def e_BoolOp(self, node, env):
+        saved = (len(self.binds), self.fresh_n)
+        try:
+            return self.e_BoolOp_plain(node, env)
+        except Untranslatable:
+            # additive fallback: `X is not None and rest` / `X is None or rest` as an EXPRESSION, where rest needs the payload of X:
+            # match X with Some p => rest[p] | None => false / true end   (exact, by short-circuit evaluation)
+            is_and = isinstance(node.op, ast.And)
+            nt = self.none_test(node.values[0], env) if len(node.values) >= 2 else None
+            if nt is None or nt[2] == is_and:
+                raise
+            del self.binds[saved[0]:]
+            self.fresh_n = saved[1]
+            x, xv, _ = nt
+            self.idiom("narrowing-by-match")
+            p = self.fresh(re.sub(r"\W", "", x.attr if isinstance(x, ast.Attribute) else x.id).strip("_")[:12] or "p")
+            env2 = env.copy()
+            env2.narrow[ekey(x)] = Val(p, xv.ty.args[0])
+            others = node.values[1:]
+            rest = others[0] if len(others) == 1 else ast.copy_location(ast.BoolOp(node.op, others), node)
+            code, ty, part = self.scoped_expr(rest, env2)
+            if ty != BOOL:
+                self.bad(node, "and/or on non-bool operands")
+            none = "false" if is_and else "true"
+            if part:
+                return self.partial(f"match {xv.code} with Some {p} => {code} | None => Ok {none} end", BOOL, "b")
+            return Val(f"(match {xv.code} with Some {p} => {code} | None => {none} end)", BOOL)
+
+    def e_BoolOp_plain(self, node, env):
         is_and = isinstance(node.op, ast.And)
         first = self.expr(node.values[0], env)
         if first.ty != BOOL:
@@ -504,6 +589,10 @@ class FunctionTranslator:
         if t in (ast.Is, ast.IsNot):
             if b.ty != NONE:
                 self.bad(node, "`is` is only offered against None")
+            isnone = self.spec.get("compares", {}).get(("Is", repr(a.ty), "none"))
+            if isnone:
+                # additive: a spec type that has its own None value (an untyped Python value): compares[("Is", T, "none")] is the test `x is None`
+                return "(" + isnone.format(paren(a.code)) + ")" if t is ast.Is else "(negb (" + isnone.format(paren(a.code)) + "))"
             if a.ty.kind != "option":
                 if a.ty == NONE:
                     return "true" if t is ast.Is else "false"
@@ -550,6 +639,15 @@ class FunctionTranslator:
                 code = f"{self.eqb(x.ty, node)} {paren(x.code)} {paren(y.code)}"
             return f"({code})" if t is ast.Eq else f"(negb ({code}))"
         if t in self.CMP_Z:
+            if (a.ty.kind == "option" and a.ty.args[0] in (Z, Q) and b.ty in (Z, Q)) or (b.ty.kind == "option" and b.ty.args[0] in (Z, Q) and a.ty in (Z, Q)):
+                # < <= > >= with ONE Optional[int/float] operand (additive): None raises TypeError, Some v compares v
+                if len(getattr(node, "ops", [0])) != 1:
+                    self.bad(node, "Optional operand in a comparison CHAIN (operands of a chain are evaluated lazily in Python)")
+                self.idiom("optional-number-ordering")
+                if a.ty.kind == "option":
+                    a = self.partial(f'match {a.code} with Some v_ => Ok v_ | None => Err "TypeError"%string end', a.ty.args[0], "n")
+                else:
+                    b = self.partial(f'match {b.code} with Some v_ => Ok v_ | None => Err "TypeError"%string end', b.ty.args[0], "n")
             x, y, num = self.arith(a, b, node)
             if num is None:
                 self.bad(node, f"ordering comparison between {a.ty} and {b.ty}")
@@ -559,6 +657,12 @@ class FunctionTranslator:
         self.bad(node, f"comparison {t.__name__}")
 
     def e_Tuple(self, node, env):
+        if node.elts and all(isinstance(e, ast.Starred) for e in node.elts):
+            # additive: (*a, *b, ...) is the concatenation of the sequences, left to right — literal reading, `++`
+            vs = [self.seq_arg(e.value, env, node) for e in node.elts]
+            vs = [vs[0]] + [self.coerce(v, vs[0].ty, node) for v in vs[1:]]
+            self.idiom("tuple-as-list")
+            return Val("(" + " ++ ".join(paren(v.code) for v in vs) + ")%list", vs[0].ty)
         vs = [self.expr(e, env) for e in node.elts]
         if len(vs) < 2:
             self.bad(node, "tuple literal with fewer than two items")
@@ -572,9 +676,63 @@ class FunctionTranslator:
         vs = [self.coerce(v, t, node) for v in vs]
         return Val("[" + "; ".join(v.code for v in vs) + "]", List(t))
 
+    def e_Set(self, node, env):
+        """additive: a set literal {a, b, ...} (never empty in Python) of items of one type; set-as-list: the list of the items put into it"""
+        vs = [self.expr(e, env) for e in node.elts]
+        vs = [self.coerce(v, vs[0].ty, node) for v in vs]
+        self.idiom("set-as-list")
+        return Val("[" + "; ".join(v.code for v in vs) + "]", SetT(vs[0].ty))
+
+    def e_JoinedStr(self, node, env):
+        """f-string whose pieces are str values and ints (idiom int-to-decimal-string): the concatenation of the pieces; an int piece is
+        rendered by the template the SPEC names for its format spec (spec 'fstring_int': {"": ..., "06d": ...}).  Fail closed on
+        conversions, computed / unlisted format specs and pieces of any other type."""
+        parts = []
+        for p in node.values:
+            if isinstance(p, ast.Constant) and isinstance(p.value, str):
+                if p.value:
+                    parts.append(self.e_Constant(p, env).code)
+                continue
+            if not isinstance(p, ast.FormattedValue) or p.conversion != -1:
+                self.bad(node, "f-string piece with a conversion (!r / !s / !a)")
+            fmt = ""
+            if p.format_spec is not None:
+                fsp = p.format_spec
+                if not (isinstance(fsp, ast.JoinedStr) and len(fsp.values) == 1 and isinstance(fsp.values[0], ast.Constant) and isinstance(fsp.values[0].value, str)):
+                    self.bad(node, "f-string with a computed format spec")
+                fmt = fsp.values[0].value
+            v = self.expr(p.value, env)
+            if v.ty == STR and fmt == "":
+                parts.append(paren(v.code))
+            elif v.ty == Z:
+                t = self.spec.get("fstring_int", {}).get(fmt)
+                if t is None:
+                    self.bad(node, f"string formatting of an int with format spec {fmt!r}: the spec names no rendering for it ('fstring_int')")
+                self.idiom("int-to-decimal-string")
+                parts.append("(" + t.format(paren(v.code)) + ")")
+            else:
+                self.bad(node, f"string formatting of a value of type {v.ty}" + (f" with format spec {fmt!r}" if fmt else ""))
+        self.idiom("str-as-string")
+        if not parts:
+            return Val('""%string', STR)
+        if len(parts) == 1:
+            return Val(parts[0], STR)
+        return Val("(" + " ++ ".join(parts) + ")%string", STR)
+
     def e_Dict(self, node, env):
         """only the empty literal `{}` assigned to a local whose dict type the spec declares ('locals')"""
         want = getattr(self, "hint", None)
+        sd = self.spec.get("str_dict_literal")
+        if sd and node.keys and all(isinstance(k_, ast.Constant) and isinstance(k_.value, str) for k_ in node.keys):
+            # additive (str-dict-literal-by-spec): {"k1": e1, ...} -> sd["code"] over the items sd["item"], values coerced to sd["value_ty"]
+            if len({k_.value for k_ in node.keys}) != len(node.keys):
+                self.bad(node, "dict literal with a repeated key")
+            self.idiom("str-dict-literal-by-spec")
+            items = []
+            for k_, v_ in zip(node.keys, node.values):
+                kc = self.e_Constant(k_, env).code
+                items.append(sd["item"].format(key=kc, value=self.coerce(self.expr(v_, env), sd["value_ty"], v_).code))
+            return Val("(" + sd["code"].format(items="; ".join(items)) + ")", sd["ty"])
         if node.keys or want is None or want.kind != "dict":
             self.bad(node, "dict literal: only `{}` assigned to a local declared as a dict in the spec ('locals') is in the subset")
         self.idiom("dict-as-assoc-list")
@@ -725,13 +883,49 @@ class FunctionTranslator:
             return f"map (fun {pat} => {ecode}) {src}", ety, False
 
         first_iter = self.expr(gens[0].iter, env)  # the outermost iterable is evaluated eagerly (may bind)
+        it_ent = self.spec.get("iter", {}).get(first_iter.ty.name if first_iter.ty.kind == "nom" else repr(first_iter.ty))
+        if it_ent:
+            # additive: iterating a value of a spec type: iter = {type: (template, item Ty, partial)} gives the list of its items (may raise)
+            it_code = it_ent[0].format(paren(first_iter.code))
+            first_iter = self.partial(it_code, List(it_ent[1]), "it") if it_ent[2] else Val("(" + it_code + ")", List(it_ent[1]))
         code, ety, part = build(0, env, first_iter)
         if part:
             return self.partial(code, List(ety), "xs")
         return Val(paren(code) if not code.startswith("(") else code, List(ety))
 
     def e_ListComp(self, node, env):
+        if getattr(self, "stream", None) and self.stream_calls([ast.Expr(node.elt)]):
+            # rng-as-decision-stream: [e for x in xs] whose element consumes the stream: py_mapM_st, items in order
+            g = node.generators[0]
+            if len(node.generators) != 1 or g.ifs or g.is_async:
+                self.bad(node, "stream-consuming comprehension with filters / several generators")
+            it = self.expr(g.iter, env)
+            pat, env2 = self.bind_target(g.target, self.elem_ty(it, g.iter), env, node)
+            v, binds = self.scoped(lambda: self.expr(node.elt, env2))
+            self.need_monad()
+            self.idiom("tuple-as-list")
+            r = self.fresh("r")
+            self.binds.append(f"do {r} <- py_mapM_st (fun {pat} {self.stvar} =>\n{indent(self.wrap(binds, f'Ok ({v.code}, {self.stvar})'), 4)}) {paren(it.code)} {self.stvar};")
+            self.binds.append(f"let {self.stvar} := snd {r} in")
+            return Val(f"(fst {r})", List(v.ty))
         return self.comprehension(node, env, lambda e2: self.scoped_expr(node.elt, e2))
+
+    def stream_calls(self, stmts) -> bool:
+        """syntactic over-approximation: do the statements contain a call that consumes the decision stream?"""
+        for st in stmts:
+            for n in ast.walk(st):
+                if not isinstance(n, ast.Call):
+                    continue
+                f = n.func
+                d = self.dotted(f)
+                t = self.mod.translated.get(d) if d else None
+                if t is not None and t.stateful:
+                    return True
+                if isinstance(f, ast.Name) and self.spec.get("funcs", {}).get(f.id, {}).get("stateful"):
+                    return True
+                if isinstance(f, ast.Attribute) and any(key[1] == f.attr and ent.get("stateful") for key, ent in self.spec.get("methods", {}).items()):
+                    return True
+        return False
 
     e_GeneratorExp = e_ListComp
 
@@ -748,6 +942,9 @@ class FunctionTranslator:
                 v = self.expr(node.value, e2)
                 return k, v
             (k, v), binds = self.scoped(go)
+            if binds and self.monadic and all(b.startswith("do ") for b in binds):
+                # key / value expressions that can raise: the pairs are computed in order (mapM), the first exception wins
+                return "(" + self.wrap(binds, f"Ok ({k.code}, {v.code})") + ")", Tup(k.ty, v.ty), True
             if binds:
                 self.bad(node, "partial expression in a dict comprehension")
             return f"({k.code}, {v.code})", Tup(k.ty, v.ty), False
@@ -770,12 +967,22 @@ class FunctionTranslator:
             self.bad(node, "* / ** arguments")
         if isinstance(f, ast.Name):
             b = getattr(self, "b_" + f.id, None)
+            if f.id in self.fs.get("funcs", {}) and f.id not in env.vars:
+                # additive: a function entry may carry its own `funcs` (same format), which take precedence over the spec-level ones
+                return self.call_spec(self.fs["funcs"][f.id], None, args, kwargs, node, env)
+            if b is not None and f.id in self.fs.get("builtins", ()) and f.id not in env.vars:
+                # additive: a function entry may list `builtins`: names read as the Python built-in although the spec maps them under `funcs`
+                return b(node, args, kwargs, env)
             if f.id in self.spec.get("funcs", {}):
                 return self.call_spec(self.spec["funcs"][f.id], None, args, kwargs, node, env)
             if f.id in self.mod.translated and f.id not in env.vars:
                 return self.call_translated(self.mod.translated[f.id], None, args, kwargs, node, env)
             if b is not None and f.id not in env.vars:
                 return b(node, args, kwargs, env)
+            nested = self.mod.translated.get(f"{self.fs['py']}.{f.id}")
+            if nested is not None and f.id not in env.vars:
+                # a bare name that is a nested function of THIS function, translated before it (listed in the spec as outer.inner)
+                return self.call_translated(nested, None, args, kwargs, node, env)
             self.bad(node, f"call of {f.id!r}: not a supported built-in, spec function or translated function")
         if isinstance(f, ast.Attribute):
             if self.is_self(f.value):
@@ -789,6 +996,9 @@ class FunctionTranslator:
                 if sa and sa[1].kind == "nom" and ("__call__", sa[1].name) in self.spec.get("methods", {}):
                     pass
                 self.bad(node, f"self.{f.attr}(...) is not in the spec and not translated")
+            d = self.dotted(f)
+            if d is not None and isinstance(f.value, ast.Name) and f.value.id not in env.vars and d in self.mod.translated:
+                return self.call_translated(self.mod.translated[d], None, args, kwargs, node, env)  # additive: Class.staticmethod(...)
             recv = self.expr(f.value, env)
             return self.method_call(recv, f.attr, args, kwargs, node, env)
         self.bad(node, "call of a computed function")
@@ -807,6 +1017,9 @@ class FunctionTranslator:
             actual[k] = a
         vals = {}
         for (p, ty) in params:
+            if p not in actual and p in ent.get("optional", {}):
+                vals[p] = ent["optional"][p]  # additive: the Python default of a mapped callee, spelled out by the spec
+                continue
             if p not in actual:
                 self.bad(node, f"argument {p!r} missing (defaults are not translated)")
             vals[p] = paren(self.coerce(self.expr(actual[p], env), ty, node).code)
@@ -818,6 +1031,8 @@ class FunctionTranslator:
         if ent.get("idiom"):
             self.idiom(ent["idiom"])
         if ent.get("stateful"):
+            if not self.stvar:
+                self.bad(node, "call of a stateful spec entry from a function that has no state / stream in the spec")
             self.need_monad()
             r = self.fresh("r")
             self.binds.append(f"do {r} <- {code} {self.stvar};")
@@ -939,6 +1154,14 @@ class FunctionTranslator:
         v = self.seq_arg(args[0], env, node)
         return Val(f"(py_enumerate {paren(v.code)})", List(Tup(Z, v.ty.args[0])))
 
+    def b_zip(self, node, args, kwargs, env):
+        """zip(a, b) of two sequences, consumed at once: `combine` (truncation to the shorter one is exactly Python's)"""
+        if kwargs or len(args) != 2:
+            self.bad(node, "zip of other than two sequences / with strict=")
+        self.idiom("tuple-as-list")
+        a, b = self.seq_arg(args[0], env, node), self.seq_arg(args[1], env, node)
+        return Val(f"(combine {paren(a.code)} {paren(b.code)})", List(Tup(a.ty.args[0], b.ty.args[0])))
+
     def b_list(self, node, args, kwargs, env):
         if kwargs or len(args) > 1:
             self.bad(node, "list arity")
@@ -977,7 +1200,8 @@ class FunctionTranslator:
         if isinstance(a, (ast.GeneratorExp, ast.ListComp)) and len(a.generators) == 1 and not a.generators[0].ifs:
             g = a.generators[0]
             it = self.expr(g.iter, env)
-            pat, env2 = self.bind_target(g.target, self.elem_ty(it, node), env, node)
+            # additive: any()/all() over a SET is accepted (its body is total and effect free, so the iteration order cannot matter)
+            pat, env2 = self.bind_target(g.target, it.ty.args[0] if it.ty.kind == "set" else self.elem_ty(it, node), env, node)
             c = self.pure_expr(a.elt, env2, f"{which}() body")
             if c.ty != BOOL:
                 self.bad(node, f"{which}() over non-bools")
@@ -1025,6 +1249,12 @@ class FunctionTranslator:
             self.bad(node, "isinstance form")
         v = self.expr(args[0], env)
         tname = v.ty.name if v.ty.kind == "nom" else repr(v.ty)
+        if args[1].id in env.vars and (tname, repr(env.vars[args[1].id].ty)) in self.spec.get("isinstance_dyn", {}):
+            # additive: isinstance(x, t) with t a LOCAL holding a class object (e.g. ranging over a set of classes):
+            # isinstance_dyn[(type of x, type of t)] is a template over {0} = x and {1} = t
+            self.idiom("isinstance-by-spec")
+            cv = self.expr(args[1], env)
+            return Val("(" + self.spec["isinstance_dyn"][(tname, repr(cv.ty))].format(paren(v.code), paren(cv.code)) + ")", BOOL)
         t = self.spec.get("isinstance", {}).get((tname, args[1].id))
         if not t:
             self.bad(node, f"isinstance({tname}, {args[1].id}) is not in the spec")
@@ -1063,7 +1293,7 @@ def contains(stmts, types, into_loops=True) -> bool:
             return True
         if isinstance(s, ast.If) and (contains(s.body, types, into_loops) or contains(s.orelse, types, into_loops)):
             return True
-        if isinstance(s, ast.For) and into_loops and contains(s.body, types, into_loops):
+        if isinstance(s, (ast.For, ast.While)) and into_loops and contains(s.body, types, into_loops):
             return True
     return False
 
@@ -1074,6 +1304,10 @@ def mentions_self(stmts) -> bool:
             if isinstance(n, ast.Name) and n.id == "self":
                 return True
     return False
+
+
+# mutable-argument-as-result: the spec's 'mutating_calls' of the module being translated (set by ModuleTranslator)
+MUTATING_CALLS: dict = {}
 
 
 def assigned_names(stmts) -> list:
@@ -1103,13 +1337,23 @@ def assigned_names(stmts) -> list:
                 target(t)
         elif isinstance(s, (ast.AugAssign, ast.AnnAssign)):
             target(s.target)
-        elif isinstance(s, ast.Expr) and isinstance(s.value, ast.Call) and isinstance(s.value.func, ast.Attribute) and s.value.func.attr in ("append", "add", "extend"):
+        elif isinstance(s, ast.Expr) and isinstance(s.value, ast.Call) and isinstance(s.value.func, ast.Attribute) and s.value.func.attr in ("append", "add", "extend", "remove"):
             target(s.value.func.value)
+        elif isinstance(s, ast.Expr) and isinstance(s.value, ast.Call) and isinstance(s.value.func, ast.Attribute) and s.value.func.attr in MUTATING_CALLS:
+            which = MUTATING_CALLS[s.value.func.attr]
+            if which == "self":
+                target(s.value.func.value)
+            for kw_ in s.value.keywords:
+                if kw_.arg == which:
+                    target(kw_.value)
         elif isinstance(s, ast.If):
             for n in assigned_names(s.body) + assigned_names(s.orelse):
                 add(n)
         elif isinstance(s, ast.For):
             target(s.target)
+            for n in assigned_names(s.body):
+                add(n)
+        elif isinstance(s, ast.While):
             for n in assigned_names(s.body):
                 add(n)
     return out
@@ -1187,6 +1431,21 @@ class StatementsMixin:
         self.idiom("nonlocal-as-state")
         return self.block(rest, env, k)
 
+    def s_With(self, s, rest, env, k):
+        """with-lock-as-block: `with self.<lock>:` (no `as`) on an attribute chain the spec lists under lock_attrs, as a
+        top-level statement of the function, with a body free of return/break/continue: the body, then the rest"""
+        locks = self.fs.get("lock_attrs", self.spec.get("lock_attrs", ()))
+        for it in s.items:
+            d = self.dotted(it.context_expr)
+            if it.optional_vars is not None or d is None or d not in locks:
+                self.bad(s, "with statement: only `with <lock listed in the spec's lock_attrs>:` without `as` is in the subset")
+        if not any(s is top for top in self.fnode.body):
+            self.bad(s, "with statement nested in another statement")
+        if any(isinstance(n, (ast.Return, ast.Break, ast.Continue, ast.Yield, ast.YieldFrom)) for st in s.body for n in ast.walk(st)):
+            self.bad(s, "return / break / continue inside a with statement")
+        self.idiom("with-lock-as-block")
+        return self.block(list(s.body) + list(rest), env, k)
+
     @staticmethod
     def dotted(node):
         """a.b.c for a Name/Attribute chain, else None"""
@@ -1211,7 +1470,20 @@ class StatementsMixin:
                     and not v.args and not v.keywords):
                 self.idiom("super-init-noop")
                 return self.block(rest, env, k)
-            if f.attr in ("append", "add") and len(v.args) == 1 and not v.keywords:
+            mc = self.spec.get("mutating_calls", {}).get(f.attr)
+            if mc is not None:
+                # mutable-argument-as-result: the mapped / translated callee returns the new value of the object it mutates
+                # (its receiver, or the keyword argument named by the spec); the statement rebinds the local holding it
+                tnode = f.value if mc == "self" else next((kw_.value for kw_ in v.keywords if kw_.arg == mc), None)
+                if isinstance(tnode, ast.Name) and tnode.id in env.vars and env.vars[tnode.id].ty.kind == "nom":
+                    def go_mut():
+                        r = self.expr(v, env)
+                        if r.ty != env.vars[tnode.id].ty:
+                            self.bad(s, f"mutating call {f.attr!r}: the callee returns {r.ty}, the mutated local {tnode.id!r} is {env.vars[tnode.id].ty}")
+                        self.idiom("mutable-argument-as-result")
+                        return self.assign_to(ast.copy_location(ast.Name(tnode.id, ast.Store()), tnode), r, env, s)
+                    return self.simple(go_mut, rest, env, k)
+            if f.attr in ("append", "add", "extend", "remove") and len(v.args) == 1 and not v.keywords:
                 return self.mutate(s, f.value, f.attr, v.args[0], rest, env, k)
             if (f.attr == "__setattr__" and isinstance(f.value, ast.Name) and f.value.id == "object" and len(v.args) == 3 and not v.keywords
                     and isinstance(v.args[0], ast.Name) and v.args[0].id == "self" and isinstance(v.args[1], ast.Constant) and isinstance(v.args[1].value, str)):
@@ -1229,6 +1501,27 @@ class StatementsMixin:
                     self.init_fields[a] = Val(g, field_[0][2])
                     return [f"let {g} := {v2.code} in"], env2
                 return self.simple(go_set, rest, env, k)
+        mc = self.spec.get("mutating_calls", {}).get(self.dotted(v.func)) if isinstance(v, ast.Call) and self.dotted(v.func) else None
+        if mc:
+            # additive (mutating-call-by-spec): f(.., x, ..) as a statement, listed in the spec as
+            # mutating_calls[f] = dict(params=[(name, Ty)], target=<param whose argument is mutated>, code=<template: the new value of that argument>);
+            # the argument must be a local name: it is rebound to the new value
+            def go_mut():
+                names = [p for p, _ in mc["params"]]
+                actual = dict(zip(names, v.args))
+                for kw in v.keywords:
+                    if kw.arg is None or kw.arg in actual or kw.arg not in names:
+                        self.bad(s, f"bad keyword argument {kw.arg!r}")
+                    actual[kw.arg] = kw.value
+                if len(v.args) > len(names) or set(actual) != set(names):
+                    self.bad(s, "arguments of a mutating call do not match the spec (defaults are not translated)")
+                tgt = actual[mc["target"]]
+                if not isinstance(tgt, ast.Name) or tgt.id not in env.vars:
+                    self.bad(s, "the mutated argument of a mutating call must be a local name")
+                vals = {p: paren(self.coerce(self.expr(actual[p], env), ty, s).code) for p, ty in mc["params"]}
+                self.idiom("mutating-call-by-spec")
+                return self.assign_to(tgt, Val("(" + mc["code"].format(**vals) + ")", dict(mc["params"])[mc["target"]]), env, s)
+            return self.simple(go_mut, rest, env, k)
         if isinstance(v, ast.Call):
             def go():
                 r = self.expr(v, env)
@@ -1254,6 +1547,14 @@ class StatementsMixin:
                     et = a.ty
                 a2 = self.coerce(a, et, s)
                 return Val(f"({a2.code} :: {paren(cur.code)})", SetT(et))
+            if meth == "extend" and cur.ty.kind == "list" and a.ty.kind == "list" and cur.ty.args[0] != NONE:
+                # x.extend(ys) with ys a list value: x is rebound to x ++ ys (additive; aliasing of x is not modelled, as for append)
+                a2 = self.coerce(a, cur.ty, s)
+                return Val(f"({paren(cur.code)} ++ {paren(a2.code)})%list", cur.ty)
+            if meth == "remove" and cur.ty.kind == "list" and cur.ty.args[0] != NONE:
+                # additive: l.remove(x) drops the first item equal to x, ValueError if there is none (py_list_remove)
+                a2 = self.coerce(a, cur.ty.args[0], s)
+                return self.partial(f"py_list_remove {self.eqb(cur.ty.args[0], s)} {paren(cur.code)} {paren(a2.code)}", cur.ty, "ls")
             self.bad(s, f".{meth} on {cur.ty}")
 
         def go():
@@ -1279,6 +1580,11 @@ class StatementsMixin:
     def assign_to(self, target, v: Val, env: Env, s):
         """-> (lines, env2)"""
         env2 = env.copy()
+        v0 = v
+        if (isinstance(target, ast.Tuple) and v.ty.kind == "list" and v.ty.args[0] != NONE and len(target.elts) == 2
+                and all(isinstance(e, ast.Name) for e in target.elts)):
+            # additive: a, b = xs with xs a list: ValueError unless it has exactly two items (py_unpack2)
+            v = self.partial(f"py_unpack2 {paren(v.code)}", Tup(v.ty.args[0], v.ty.args[0]), "u")
         if isinstance(target, ast.Name):
             want = self.fs.get("locals", {}).get(target.id)
             if want is not None:
@@ -1296,6 +1602,13 @@ class StatementsMixin:
             g = self.gname(target.id)
             env2.vars[target.id] = Val(g, v.ty)
             env2.narrow.pop(ekey(ast.Name(target.id, ast.Load())), None)
+            if self.fs.get("narrow_on_assign") and v.ty.kind == "option" and v0.ty.kind != "option" and v0.ty != NONE:
+                # narrowing-by-match, spec flag narrow_on_assign: an Optional local assigned a non-None value is read as that value until reassigned
+                pv = self.fresh(re.sub(r"\W", "", target.id).strip("_")[:12] or "p")
+                inner = self.coerce(v0, v.ty.args[0], s)
+                self.idiom("narrowing-by-match")
+                env2.narrow[ekey(ast.Name(target.id, ast.Load()))] = Val(pv, v.ty.args[0])
+                return [f"let {pv} := {inner.code} in", f"let {g} := (Some {pv}) in"], env2
             return [f"let {g} := {v.code} in"], env2
         if isinstance(target, ast.Attribute) and self.is_self(target.value):
             a = target.attr
@@ -1359,6 +1672,28 @@ class StatementsMixin:
             v2 = self.coerce(v, d.ty.args[1], s)
             nd = Val(f"(py_dict_set {self.eqb(d.ty.args[0], s)} {paren(d.code)} {paren(key.code)} {paren(v2.code)})", d.ty)
             return self.assign_to(target.value, nd, env, s)
+        if isinstance(target, ast.Attribute) and self.chain_state_field(target) is not None:
+            # additive: self.a.b = e on a chain the spec lists as ONE state field "a.b": the state record is rebuilt
+            fld = self.chain_state_field(target)
+            self.idiom("state-record")
+            v2 = self.coerce(v, fld[2], s)
+            load = ast.parse(ast.unparse(target), mode="eval").body
+            env2.narrow.pop(ekey(load), None)
+            parts = [paren(v2.code) if at == fld[0] else f"({pj} {self.stvar})" for (at, pj, _) in self.state["fields"]]
+            return [f"let {self.stvar} := {self.state['ctor']} {' '.join(parts)} in"], env2
+        if (isinstance(target, ast.Attribute) and isinstance(target.value, ast.Name) and not self.is_self(target.value)
+                and target.value.id in env.vars and target.value.id in self.fs.get("local_objects", ())):
+            # additive (local-object-setattr): x.a = e on a local object x the function entry lists under local_objects (created in
+            # this function, not aliased): x is rebound to setattrs[(type of x, a)] = (template over {0} = x and {1} = e, Ty of the attribute)
+            ov = env.vars[target.value.id]
+            ent = self.spec.get("setattrs", {}).get((ov.ty.name if ov.ty.kind == "nom" else repr(ov.ty), target.attr))
+            if not ent:
+                self.bad(s, f"assignment to attribute {target.attr!r} of local object {target.value.id!r}: not in the spec's setattrs")
+            self.idiom("local-object-setattr")
+            v2 = self.coerce(v, ent[1], s)
+            g = self.gname(target.value.id)
+            env2.vars[target.value.id] = Val(g, ov.ty)
+            return [f"let {g} := {ent[0].format(paren(ov.code), paren(v2.code))} in"], env2
         self.bad(s, "assignment target outside the subset")
 
     def state_field_hint(self, target):
@@ -1446,7 +1781,24 @@ class StatementsMixin:
         return ast.copy_location(new, s)
 
     def state_names(self, stmts):
+        if getattr(self, "stream", None) and self.stream_calls(stmts):
+            return [self.stvar]
         return [self.stvar] if (self.state and self.kind != "init" and mentions_self(stmts)) else []
+
+    def isinstance_test(self, test, env):
+        """isinstance-narrowing-by-match: `isinstance(x, C)` on a local NAME x that is not narrowed already, with
+        (type of x, C) in the spec table isinstance_narrow = {(type, class): (view template : option payload, payload Ty)}
+        -> (x node, Val of x, view template, payload Ty); else None (the test is then an ordinary boolean expression)"""
+        tbl = self.spec.get("isinstance_narrow")
+        if not tbl or not (isinstance(test, ast.Call) and isinstance(test.func, ast.Name) and test.func.id == "isinstance" and "isinstance" not in env.vars
+                           and len(test.args) == 2 and not test.keywords and isinstance(test.args[0], ast.Name) and isinstance(test.args[1], ast.Name)):
+            return None
+        x = test.args[0]
+        if ekey(x) in env.narrow or x.id not in env.vars or test.args[1].id in env.vars:
+            return None
+        v = env.vars[x.id]
+        ent = tbl.get((v.ty.name if v.ty.kind == "nom" else repr(v.ty), test.args[1].id))
+        return (x, v, ent[0], ent[1]) if ent else None
 
     def s_If(self, s, rest, env, k):
         split = self.split_boolop(s, env)
@@ -1464,6 +1816,15 @@ class StatementsMixin:
             def mk(a, b):
                 some, none = (b, a) if is_none else (a, b)
                 return f"match {xv.code} with\n| Some {p} =>\n{indent(some, 4)}\n| None =>\n{indent(none, 4)}\nend"
+        elif self.isinstance_test(s.test, env):
+            # isinstance-narrowing-by-match (additive, spec table `isinstance_narrow`): the then-branch reads the payload of the view
+            self.idiom("isinstance-narrowing-by-match")
+            x, xv, view, pty = self.isinstance_test(s.test, env)
+            p = self.fresh(re.sub(r"\W", "", x.id).strip("_")[:12] or "p")
+            env_a, env_b = env.copy(), env
+            env_a.narrow[ekey(x)] = Val(p, pty)
+            def mk(a, b):
+                return f"match {view.format(paren(xv.code))} with\n| Some {p} =>\n{indent(a, 4)}\n| None =>\n{indent(b, 4)}\nend"
         else:
             c, pre = self.scoped(lambda: self.expr(s.test, env))
             if c.ty != BOOL:
@@ -1516,12 +1877,25 @@ class StatementsMixin:
             return a, b, self.effects != e0 or "do " in a or "do " in b
 
         saved_fresh = self.fresh_n
-        a, b, eff = attempt(False)
+        while True:
+            try:
+                a, b, eff = attempt(False)
+                break
+            except Untranslatable as ex_:
+                # additive: a local FIRST assigned inside the branches, but not on every path, is left out of the join
+                # (a later read of it is then rejected as an unknown name)
+                dead = [n for n in names if n not in env.vars and ex_.reason == f"{n!r} is not bound on every path"]
+                if not dead:
+                    raise
+                names.remove(dead[0])
+                self.fresh_n = saved_fresh
         if eff:
             self.need_monad()
             self.fresh_n = saved_fresh
             a, b, _ = attempt(True)
         gn = [self.gname(n) for n in names] + stn
+        if getattr(self, "stream", None) and not stn and f"let {self.stvar} := snd " in a + b:
+            self.bad(s, "a branch consumes the stream but the stream is not part of the joined state")
         pat = "_" if not gn else gn[0] if len(gn) == 1 else "'(" + ", ".join(gn) + ")"
         env2 = env.copy()
         for n in names:
@@ -1635,6 +2009,8 @@ class StatementsMixin:
             self.need_monad()
             self.fresh_n = saved_fresh
             code, _ = attempt(mode, True)
+        if getattr(self, "stream", None) and not stn and f"let {self.stvar} := snd " in code:
+            self.bad(s, "the loop body consumes the stream but the stream is not part of the loop state")
         restc = self.block(rest, env_after, k)
         if mode == "fold":
             if not eff:
@@ -1657,6 +2033,60 @@ class StatementsMixin:
         j = self.fresh("l")
         return self.wrap(pre + [f"do {j} <-\n  py_for {xs} (fun {pat} {spat if gn else '_'} =>\n{indent(code, 4)}) {paren(init)};"], f"match {j} with\n{arms}")
 
+    # -- while (while-as-fuel)
+    def s_While(self, s, rest, env, k):
+        """while c: body  ->  py_while fuel (fun st => c) (fun st => body) st, st = the locals the body assigns (+ the stream)"""
+        if s.orelse:
+            self.bad(s, "while ... else")
+        if not getattr(self, "fuel", None):
+            self.bad(s, "statement form While is outside the subset unless the spec names an explicit fuel parameter for this function (while_fuel)")
+        body = s.body
+        if any(isinstance(n, (ast.Break, ast.Continue)) for st in body for n in ast.walk(st)):
+            self.bad(s, "break / continue inside a while loop")
+        self.need_monad()
+        self.idiom("while-as-fuel")
+        names = [n for n in assigned_names(body) if n in env.vars]
+        stn = self.state_names(body)
+        gn = [self.gname(n) for n in names] + stn
+        spat = "_" if not gn else gn[0] if len(gn) == 1 else "'(" + ", ".join(gn) + ")"
+
+        def cur_tuple(e):
+            vals = []
+            for n in names:
+                if e.vars[n].ty != env.vars[n].ty:
+                    self.bad(s, f"loop changes the type of {n!r}")
+                vals.append(e.vars[n].code)
+            vals += stn
+            return "tt" if not vals else vals[0] if len(vals) == 1 else "(" + ", ".join(vals) + ")"
+
+        for n in names:
+            if env.vars[n].ty.kind in ("list", "set") and env.vars[n].ty.args[0] == NONE:
+                self.bad(s, f"loop updates {n!r} whose element type is unknown: declare it in the spec ('locals')")
+        env_body, env_after = env.copy(), env.copy()
+        for e_ in (env_body, env_after):
+            for n in names:
+                e_.narrow.pop(ekey(ast.Name(n, ast.Load())), None)
+            if stn:
+                for key in list(e_.narrow):
+                    if "'self'" in key:
+                        e_.narrow.pop(key)
+        for n in names:
+            env_body.vars[n] = Val(self.gname(n), env.vars[n].ty)
+        init = cur_tuple(env)
+        ccode, cty, cpart = self.scoped_expr(s.test, env_body)  # a stream-consuming test is rejected by scoped_expr
+        if cty != BOOL:
+            self.bad(s, f"condition of type {cty}: truthiness is outside the subset")
+        cond = ccode if cpart else f"Ok {paren(ccode)}"
+        kk = K(k.payload, lambda p_: f"Ok (Ret {paren(p_)})", lambda e: f"Ok (Next {paren(cur_tuple(e))})", None)
+        code = self.block(body, env_body, kk)
+        if getattr(self, "stream", None) and not stn and f"let {self.stvar} := snd " in code:
+            self.bad(s, "the loop body consumes the stream but the stream is not part of the loop state")
+        restc = self.block(rest, env_after, k)
+        j = self.fresh("w")
+        arms = f"| Ret r_ => {k.wrap('r_')}\n| Next {spat.lstrip(chr(39))} =>\n{indent(restc, 4)}\nend"
+        return (f"do {j} <-\n  py_while {self.fuel} (fun {spat} => {cond}) (fun {spat} =>\n{indent(code, 4)}) {paren(init)};\n"
+                f"match {j} with\n{arms}")
+
 
 class FunctionTranslatorFull(StatementsMixin, FunctionTranslator):
     def translate(self) -> GenFunction:
@@ -1667,9 +2097,12 @@ class FunctionTranslatorFull(StatementsMixin, FunctionTranslator):
         self._value_params = set()
         env = Env()
         a = fnode.args
-        if a.vararg or a.kwarg or a.kwonlyargs or a.posonlyargs:
+        # keyword-only parameters (`def run(self, pubs, *, shots=None)`) are ordinary parameters when the spec names exactly
+        # them under kwonly_params (defaults never reach the translator, as for every parameter); otherwise rejected
+        kwonly = list(a.kwonlyargs) if fs.get("kwonly_params") and [x.arg for x in a.kwonlyargs] == list(fs["kwonly_params"]) else []
+        if a.vararg or a.kwarg or (a.kwonlyargs and not kwonly) or a.posonlyargs:
             self.bad(fnode, "*args / **kwargs / keyword-only parameters")
-        for arg in a.args:
+        for arg in list(a.args) + kwonly:
             n = arg.arg
             if n == "self" and n not in pyparams:
                 continue
@@ -1683,7 +2116,7 @@ class FunctionTranslatorFull(StatementsMixin, FunctionTranslator):
             if n == "self":
                 self._value_params.add("self")
         for n in pyparams:
-            if n not in [x.arg for x in a.args]:
+            if n not in [x.arg for x in list(a.args) + kwonly]:
                 self.bad(fnode, f"spec parameter {n!r} does not exist in the source")
         if self.state and self.kind != "init":
             self.gparams.append((self.stvar, self.state["ty"], "state"))
@@ -1704,6 +2137,8 @@ class FunctionTranslatorFull(StatementsMixin, FunctionTranslator):
                     self.bad(fnode, f"nonlocal_state field {n!r} is also a parameter")
                 env.vars[n] = Val(f"({proj} {nls['var']})", ty)
             stateful = True
+        if self.fuel:
+            self.gparams.append((self.fuel, Nom("nat", "nat"), "fuel"))  # while-as-fuel: explicit fuel, last parameter
 
         def payload(v, e, node):
             if self.kind == "init":
@@ -1717,11 +2152,18 @@ class FunctionTranslatorFull(StatementsMixin, FunctionTranslator):
                         self.bad(node, f"constructor ends without assigning self.{attr}")
                     parts.append(e.vars["self." + attr].code)
                 return f"({self.state['ctor']} {' '.join(parts)})"
-            if v is None:
+            if v is None and fs.get("returns_param"):
+                # mutable-argument-as-result: a function that mutates its argument in place returns the argument's final value
+                self.idiom("mutable-argument-as-result")
+                code = self.coerce(e.vars[fs["returns_param"]], self.ret_ty, node).code
+            elif v is None:
                 if self.ret_ty == UNIT:
                     code = "tt"
                 elif self.ret_ty.kind == "option":
                     code = "None"
+                elif (repr(NONE), repr(self.ret_ty)) in self.spec.get("coercions", {}):
+                    # additive: the implicit `return None` into a return type for which the spec gives the None value (coercions[("none", T)])
+                    code = self.coerce(Val("None", NONE), self.ret_ty, node).code
                 else:
                     self.bad(node, f"falls off the end / bare return, but the spec says it returns {self.ret_ty}")
             else:
@@ -1781,6 +2223,8 @@ class ModuleTranslator:
         self.tree = ast.parse(self.src)
         self.translated: dict[str, GenFunction] = {}
         self.repo_root = repo_root
+        MUTATING_CALLS.clear()
+        MUTATING_CALLS.update(spec.get("mutating_calls", {}))
 
     def use_source(self, rel: str):
         """a function entry may name its own `source` file (a property whose code lives in several modules)"""
@@ -1833,6 +2277,8 @@ class ModuleTranslator:
         node = None
         for i, p in enumerate(parts):
             found = [n for n in scope if isinstance(n, (ast.FunctionDef, ast.ClassDef)) and n.name == p]
+            if not found and i == len(parts) - 1 and i > 0:
+                found = self.lambda_defs(scope, p)  # additive: `p = lambda args: e` in the enclosing function (idiom lambda-as-def)
             if len(found) != 1:
                 raise Untranslatable(self.tree, f"{dotted}: {p!r} not found exactly once in {self.relpath}")
             node = found[0]
@@ -1843,6 +2289,29 @@ class ModuleTranslator:
             raise Untranslatable(node, f"{dotted} is not a function")
         return node, cls
 
+    @staticmethod
+    def lambda_defs(scope, name):
+        """lambda-as-def: the statements `name = lambda a, b: e` / `name: T = lambda a, b: e` at the top level of the block
+        `scope`, each as the FunctionDef `def name(a, b): return e` (plain positional parameters without defaults only; the
+        name must not be assigned anywhere else in the block, so that the name denotes this function wherever it is read)"""
+        out, others = [], 0
+        for n in scope:
+            tgt = n.targets[0] if isinstance(n, ast.Assign) and len(n.targets) == 1 else n.target if isinstance(n, ast.AnnAssign) else None
+            if isinstance(tgt, ast.Name) and tgt.id == name:
+                lam = n.value
+                a = lam.args if isinstance(lam, ast.Lambda) else None
+                if a is None or a.defaults or a.kwonlyargs or a.vararg or a.kwarg or a.posonlyargs or a.kw_defaults:
+                    others += 1
+                    continue
+                ret = ast.copy_location(ast.Return(lam.body), lam.body)
+                fn = ast.FunctionDef(name, a, [ret], [], None)
+                fn.lineno, fn.end_lineno, fn.col_offset, fn.end_col_offset = n.lineno, n.end_lineno, n.col_offset, n.end_col_offset
+                fn.lambda_as_def = True
+                out.append(fn)
+            elif name in assigned_names([n]):
+                others += 1
+        return out if not others else out + out  # assigned elsewhere too: not "exactly once" -> rejected by find()
+
     def fragment(self, fnode, fs):
         """fragment-as-function: fs['fragment'] = dict(path=["While", "For:0", ...], outputs=[names], temps=[names]).
         -> a synthetic FunctionDef whose parameters are fs['params'] and whose body is the addressed block's statements
@@ -1850,6 +2319,10 @@ class ModuleTranslator:
         fr = fs["fragment"]
         block = fnode.body
         for step in fr["path"]:
+            ext = self.fragment_step_ext(fnode, fs, block, step)  # additive path steps: Else[:i] / With=<ctx> / Try / Handler
+            if ext is not None:
+                block = ext
+                continue
             kind, _, idx = step.partition(":")
             if kind not in ("While", "For", "If"):
                 raise Untranslatable(fnode, f"fragment path step {step!r}")
@@ -1859,10 +2332,12 @@ class ModuleTranslator:
             block = found[int(idx) if idx else 0].body
         if fr.get("after"):
             # start behind the unique statement of this type in the addressed block (e.g. after the main `While`)
-            at = [i for i, n in enumerate(block) if type(n).__name__ == fr["after"]]
+            at = [i for i, n in enumerate(block) if (self.stmt_matches(n, fr["after"]) if "=" in fr["after"] else type(n).__name__ == fr["after"])]
             if len(at) != 1:
                 raise Untranslatable(fnode, f"fragment of {fs['py']}: expected exactly one {fr['after']} statement to start after, found {len(at)}")
             block = block[at[0] + 1:]
+        if any(fr.get(k_) for k_ in ("whole", "tail", "with_test", "until")):
+            return self.fragment_ext(fnode, fs, block)  # additive fragment options (see fragment_ext)
         stmts, closed = [], False
         for st in block:
             if fr.get("count") is not None and len(stmts) == fr["count"]:
@@ -1890,6 +2365,108 @@ class ModuleTranslator:
         fn.lineno, fn.end_lineno, fn.col_offset, fn.end_col_offset = stmts[0].lineno, last.end_lineno, stmts[0].col_offset, last.end_col_offset
         return fn
 
+    # ---- additive fragment addressing (C06/C07: straight-line blocks between synchronisation operations) -------------
+    @staticmethod
+    def stmt_matches(n, pat) -> bool:
+        """pat = "Type" | "Type=<text>": statement type, and for Expr / If / While / With the exact `ast.unparse` text of the
+        expression / the test / the with-items (so a synchronisation operation is named by its source text, e.g.
+        "Expr=self._variable_lock.acquire()", "With=self._variable_lock")"""
+        kind, eq, text = pat.partition("=")
+        if type(n).__name__ != kind:
+            return False
+        if not eq:
+            return True
+        if isinstance(n, ast.Expr):
+            got = ast.unparse(n.value)
+        elif isinstance(n, (ast.If, ast.While)):
+            got = ast.unparse(n.test)
+        elif isinstance(n, ast.With):
+            got = ", ".join(ast.unparse(i) for i in n.items)
+        elif isinstance(n, (ast.Assign, ast.AnnAssign)):
+            got = ", ".join(ast.unparse(t_) for t_ in (n.targets if isinstance(n, ast.Assign) else [n.target]))  # additive: the assignment TARGET text
+        else:
+            return False
+        return got == text
+
+    def fragment_step_ext(self, fnode, fs, block, step):
+        """additive path steps -> the addressed sub-block, or None when `step` is not one of them:
+        "Else[:i]" orelse of the (i-th) If; "With=<items>" body of the unique `with <items>:` of the block (the `with` itself —
+        entering/leaving the lock or condition — is NOT translated); "Try" body of the unique try; "Handler" body of the
+        single except handler of the unique try (its `as` name is an ordinary parameter of the fragment)."""
+        def one(found, what, idx=""):
+            if (not idx and len(found) != 1) or (idx and int(idx) >= len(found)):
+                raise Untranslatable(fnode, f"fragment of {fs['py']}: path step {step!r}: expected {'exactly one' if not idx else 'more than ' + idx} {what} in the block, found {len(found)}")
+            return found[int(idx) if idx else 0]
+        if step.startswith("With="):
+            return one([n for n in block if self.stmt_matches(n, step)], f"`with {step[5:]}:`").body
+        kind, _, idx = step.partition(":")
+        if kind == "Else":
+            n = one([n for n in block if isinstance(n, ast.If)], "If statement(s)", idx)
+            if not n.orelse:
+                raise Untranslatable(n, f"fragment of {fs['py']}: path step {step!r}: the if has no else branch")
+            return n.orelse
+        if kind in ("Try", "Handler"):
+            n = one([n for n in block if isinstance(n, ast.Try)], "try statement")
+            if kind == "Try":
+                return n.body
+            if len(n.handlers) != 1:
+                raise Untranslatable(n, f"fragment of {fs['py']}: path step 'Handler': expected exactly one except handler")
+            return n.handlers[0].body
+        return None
+
+    def fragment_ext(self, fnode, fs, block):
+        """additive fragment options (same contract as `fragment`: a synthetic FunctionDef over fs['params']):
+        whole=True      all statements of the addressed block (behind `after`); none may contain return/break/continue;
+        tail=True       all statements up to the end of the block, which must end in return/raise on every path: the value of
+                        the fragment is what the FUNCTION returns there (no synthetic return; outputs must be empty);
+        count=n         (n may be 0 together with with_test) the first n statements; there must be a statement behind them;
+        until="Type[=text]"  that statement behind the fragment must match (stmt_matches), e.g. the next synchronisation operation;
+        with_test=True  that statement is an if/while whose TEST is evaluated behind the fragment's statements and returned
+                        as the last output (the branch decision of the model step)."""
+        fr = fs["fragment"]
+        tail = bool(fr.get("tail"))
+        if fr.get("whole") or tail:
+            stmts, nxt = list(block), None
+            if fr.get("count") is not None or fr.get("with_test") or fr.get("until"):
+                raise Untranslatable(fnode, f"fragment of {fs['py']}: whole/tail cannot be combined with count/until/with_test")
+        else:
+            n = fr.get("count")
+            if n is None or len(block) <= n:
+                raise Untranslatable(fnode, f"fragment of {fs['py']}: the addressed block does not have {n} statements followed by another statement")
+            stmts, nxt = list(block[:n]), block[n]
+        leave = (ast.Break, ast.Continue, ast.Yield, ast.YieldFrom) + (() if tail else (ast.Return,))
+        for st in stmts:
+            if any(isinstance(x, leave) for x in ast.walk(st)):
+                raise Untranslatable(st, f"fragment of {fs['py']}: break/continue/yield" + ("" if tail else "/return") + " inside the fragment")
+        if not stmts and not fr.get("with_test"):
+            raise Untranslatable(fnode, f"fragment of {fs['py']}: empty fragment")
+        if fr.get("until") and not self.stmt_matches(nxt, fr["until"]):
+            raise Untranslatable(nxt, f"fragment of {fs['py']}: the statement behind the fragment is not {fr['until']!r}")
+        outputs, temps = list(fr.get("outputs", [])), list(fr.get("temps", []))
+        if tail and (outputs or not terminates(stmts)):
+            raise Untranslatable(stmts[-1], f"fragment of {fs['py']}: a tail fragment has no outputs and must end in return/raise on every path")
+        inside = {id(x) for st in stmts for x in ast.walk(st)}
+        for name in assigned_names(stmts):
+            if name not in outputs and name not in temps:
+                raise Untranslatable(stmts[0], f"fragment of {fs['py']} assigns {name!r}, which is neither an output nor a declared temp")
+        for x in ast.walk(fnode):
+            if isinstance(x, ast.Name) and x.id in temps and isinstance(x.ctx, ast.Load) and id(x) not in inside:
+                raise Untranslatable(x, f"fragment of {fs['py']}: temp {x.id!r} is read outside the fragment")
+        first, last = (stmts[0], stmts[-1]) if stmts else (nxt, nxt)
+        body = list(stmts)
+        if not tail:
+            vals = [ast.copy_location(ast.Name(o, ast.Load()), last) for o in outputs]
+            if fr.get("with_test"):
+                if not isinstance(nxt, (ast.If, ast.While)):
+                    raise Untranslatable(nxt, f"fragment of {fs['py']}: with_test needs an if/while behind the fragment")
+                vals.append(nxt.test)
+            body.append(ast.copy_location(ast.Return(None if not vals else vals[0] if len(vals) == 1 else ast.copy_location(ast.Tuple(vals, ast.Load()), last)), last))
+        args = ast.arguments(posonlyargs=[], args=[ast.arg(p[0]) for p in fs.get("params", [])], vararg=None, kwonlyargs=[], kw_defaults=[], kwarg=None, defaults=[])
+        fn = ast.FunctionDef(fs["gen"], args, body, [], None)
+        fn.lineno, fn.col_offset = first.lineno, first.col_offset
+        fn.end_lineno, fn.end_col_offset = (nxt.test.end_lineno, nxt.test.end_col_offset) if (fr.get("with_test") and not tail) else (last.end_lineno, last.end_col_offset)
+        return fn
+
     def run(self, only=None) -> GenModule:
         funs, idioms = [], []
         for fs in self.spec["functions"]:
@@ -1899,11 +2476,13 @@ class ModuleTranslator:
                 if fs.get("fragment"):
                     fnode = self.fragment(fnode, fs)
                 ft = FunctionTranslatorFull(self, fs, fnode, fs.get("cls", cls))
-                gf = ft.translate()
+                gf = sync_skeleton(self, fs, fnode) if fs.get("kind") == "sync_skeleton" else ft.translate()  # additive kind (idiom sync-skeleton)
                 if fs.get("fragment"):
                     gf.py = f"{fs['py']}#{fs['gen']}"
                     if "fragment-as-function" not in gf.idioms:
                         gf.idioms.append("fragment-as-function")
+                if getattr(fnode, "lambda_as_def", False) and "lambda-as-def" not in gf.idioms:
+                    gf.idioms.append("lambda-as-def")
             except Untranslatable as e:
                 e.function = fs["py"]
                 try:
@@ -1912,7 +2491,7 @@ class ModuleTranslator:
                 except Untranslatable:
                     e.source = ""
                 raise
-            key = fs["py"] if not fs.get("fragment") else f"{fs['py']}#{fs['gen']}"
+            key = fs["py"] if not (fs.get("fragment") or fs.get("kind") == "sync_skeleton") else f"{fs['py']}#{fs['gen']}"
             self.translated[key] = gf
             if fs.get("as_attr"):
                 pass
@@ -1925,6 +2504,148 @@ class ModuleTranslator:
                 f"   Trusted semantic rules used here: {', '.join(idioms)}. *)\n"
                 "From QV Require Import Translate.PyPrelude.\n" + "\n".join(self.spec.get("imports", [])) + "\n\n" + self.spec.get("preamble", "") + "\n")
         return GenModule(head + "\n".join(f.text for f in funs), funs, idioms)
+
+
+# ====================================================================================== synchronisation skeleton (C06/C07)
+IDIOMS["fragment-as-function"] += ("; additive addressing (C06): path steps into the else branch of an if, the body of `with <lock>:` named by its source text, "
+                                   "the body / the single handler of a try; start behind / end in front of a statement named by its source text "
+                                   "(a synchronisation operation); the whole block; the tail of the function (its return/raise); the test of the if/while behind the fragment as last output. "
+                                   "The `with`, `try`, lock and condition operations themselves are NOT translated")
+IDIOMS["sync-skeleton"] = ("function entry kind='sync_skeleton': NOT what the function computes but the ORDER AND NESTING of its synchronisation operations, as a `list string`: "
+                           "one item per call on an object the spec lists under sync.objects (`alias.method(args as written)`), per `with` on such an object (enter / exit), per call of a "
+                           "callee listed under sync.calls (and of a method listed under sync.result_methods on its value), per if/while/for/try/else/except/return/raise/break/continue, and "
+                           "ONE item `block` per maximal run of statements without any of these; tests and plain statements are opaque (`?`, `block`). Fail closed: a listed object used other "
+                           "than as receiver of a call or as the item of a `with` (aliased, passed on, stored), a `with` on anything else, or a synchronisation operation inside a lambda / "
+                           "comprehension / nested def is rejected. Says nothing about what the operations DO (Lock/Condition semantics are not modelled)")
+
+
+def sync_skeleton(mod, fs, fnode) -> GenFunction:
+    """idiom sync-skeleton; fs['sync'] = dict(objects={source text: alias}, calls={source text of callee: label}, result_methods={method: label})"""
+    sy = fs.get("sync") or {}
+    objects, calls, rmeth = dict(sy.get("objects", {})), dict(sy.get("calls", {})), dict(sy.get("result_methods", {}))
+    dotted = StatementsMixin.dotted
+    items: list[str] = []
+
+    def bad(node, why):
+        raise Untranslatable(node, f"sync skeleton of {fs['py']}: {why}")
+
+    def mentions_sync(n) -> bool:
+        for x in ast.walk(n):
+            if isinstance(x, (ast.Name, ast.Attribute)) and (dotted(x) in objects or dotted(x) in calls):
+                return True
+        return False
+
+    def argtext(call) -> str:
+        return ", ".join([ast.unparse(a) for a in call.args] + [(k.arg + "=" if k.arg else "**") + ast.unparse(k.value) for k in call.keywords])
+
+    def ops_in(node) -> list:
+        """labels of the synchronisation operations inside an expression / simple statement, in evaluation order"""
+        out = []
+
+        def visit(n):
+            if isinstance(n, (ast.Lambda, ast.FunctionDef, ast.AsyncFunctionDef, ast.ClassDef, ast.GeneratorExp, ast.ListComp, ast.SetComp, ast.DictComp, ast.Await, ast.Yield, ast.YieldFrom)):
+                if mentions_sync(n):
+                    bad(n, "synchronisation operation inside a lambda / comprehension / nested definition")
+                return
+            if isinstance(n, ast.Call):
+                f = n.func
+                if isinstance(f, ast.Attribute) and dotted(f.value) in objects:
+                    for a in list(n.args) + [k.value for k in n.keywords]:
+                        visit(a)
+                    out.append(f"{objects[dotted(f.value)]}.{f.attr}({argtext(n)})")
+                    return
+                if dotted(f) in calls:
+                    for a in list(n.args) + [k.value for k in n.keywords]:
+                        visit(a)
+                    out.append(calls[dotted(f)])
+                    return
+                if isinstance(f, ast.Attribute) and f.attr in rmeth and isinstance(f.value, ast.Call) and dotted(f.value.func) in calls:
+                    visit(f.value)
+                    for a in list(n.args) + [k.value for k in n.keywords]:
+                        visit(a)
+                    out.append(rmeth[f.attr])
+                    return
+            if isinstance(n, (ast.Name, ast.Attribute)) and (dotted(n) in objects or dotted(n) in calls):
+                bad(n, f"{dotted(n)} is used other than as the receiver of a call / the item of a `with` / a listed callee (aliased, passed on or stored)")
+            for c in ast.iter_child_nodes(n):
+                visit(c)
+
+        visit(node)
+        return out
+
+    def plain():
+        if not items or items[-1] != "block":
+            items.append("block")
+
+    def head(kw, test):
+        ops = ops_in(test)
+        items.append(f"{kw} " + (" ; ".join(ops) if ops else "?") + " {")
+
+    def walk(stmts):
+        for s in stmts:
+            if isinstance(s, ast.Expr) and isinstance(s.value, ast.Constant) and isinstance(s.value.value, str):
+                continue  # docstring
+            if isinstance(s, ast.With):
+                names = []
+                for it in s.items:
+                    d = dotted(it.context_expr)
+                    if d not in objects or it.optional_vars is not None:
+                        bad(s, "`with` on something that is not a listed synchronisation object (or with `as`)")
+                    names.append(objects[d])
+                items.extend(f"with {n} {{" for n in names)
+                walk(s.body)
+                items.extend(f"}} exit {n}" for n in reversed(names))
+            elif isinstance(s, (ast.If, ast.While)):
+                head("if" if isinstance(s, ast.If) else "while", s.test)
+                walk(s.body)
+                if s.orelse:
+                    items.append("} else {")
+                    walk(s.orelse)
+                items.append("}")
+            elif isinstance(s, ast.For):
+                head("for", s.iter)
+                walk(s.body)
+                if s.orelse:
+                    items.append("} else {")
+                    walk(s.orelse)
+                items.append("}")
+            elif isinstance(s, ast.Try):
+                items.append("try {")
+                walk(s.body)
+                for h in s.handlers:
+                    items.append("} except " + (ast.unparse(h.type) if h.type is not None else "") + " {")
+                    walk(h.body)
+                if s.orelse:
+                    items.append("} else {")
+                    walk(s.orelse)
+                if s.finalbody:
+                    items.append("} finally {")
+                    walk(s.finalbody)
+                items.append("}")
+            elif isinstance(s, (ast.Return, ast.Raise)):
+                items.extend(ops_in(s))
+                items.append("return" if isinstance(s, ast.Return) else "raise")
+            elif isinstance(s, (ast.Break, ast.Continue)):
+                items.append("break" if isinstance(s, ast.Break) else "continue")
+            elif isinstance(s, (ast.Assign, ast.AugAssign, ast.AnnAssign, ast.Expr, ast.Pass, ast.Assert, ast.Delete, ast.Nonlocal, ast.Global, ast.Import, ast.ImportFrom,
+                                ast.FunctionDef, ast.ClassDef)):
+                ops = ops_in(s)
+                if ops:
+                    items.extend(ops)
+                else:
+                    plain()
+            else:
+                bad(s, f"statement form {type(s).__name__}")
+
+    walk(fnode.body)
+    for it in items:
+        if not all(32 <= ord(ch) < 127 for ch in it):
+            bad(fnode, "non-ASCII text in a synchronisation operation")
+    gen = "gen_" + fs["gen"]
+    body = ";\n".join('    "' + it.replace('"', '""') + '"' for it in items)
+    text = (f"(* {mod.relpath}:{fnode.lineno}-{fnode.end_lineno}  {fs['py']}: synchronisation skeleton *)\n"
+            f"Definition {gen} : list string :=\n  [\n{body}\n  ]%string.\n")
+    return GenFunction(f"{fs['py']}#{fs['gen']}", gen, text, mod.source_segment(fnode), fnode.lineno, fnode.end_lineno, False, False, [], List(STR), ["sync-skeleton"], fs)
 
 
 def translate_spec(spec: dict, repo_root) -> GenModule:
